@@ -100,8 +100,8 @@ func runSingle(run *report.Run, check string, cfgs []*world.Config, mon func(*wo
 		e := &explore.Explorer{Cfg: cfg, Ops: ops(cfg), Mon: mon(cfg), Reduced: true, MaxDepth: cfg.MaxDepth}
 		if !world.HookAvailable {
 			// black-box fallback: no merging possible, bounded-depth tree search
-			e.MaxDepth = 4
-			e.MaxStates = 300000
+			e.MaxDepth = 3
+			e.MaxStates = 20000
 		} else if run.Thorough() {
 			e.MaxStates = 600000
 		} else {
